@@ -73,7 +73,7 @@ PROPS = {
         'theorems': 'Properties/C04', 'obligation_files': ['Obligations/ObShape'],
         'profiles': [SAO, SAOLONG],
         'projection': ['bank.Balance', 'market.Worker', 'order.Order#8', 'order.Order#6', 'order.Order#5'],
-        'monitors': ['solv.market', 'solv.order', 'frame.supply'], 'families': ['sao', 'block', 'node'],
+        'monitors': ['solv.market', 'solv.order', 'cons.', 'frame.supply'], 'families': ['sao', 'block', 'node'],
     },
     'C05': {
         'theorems': 'Properties/C05', 'obligation_files': [],
@@ -91,7 +91,7 @@ PROPS = {
         'theorems': 'Properties/C07', 'obligation_files': [],
         'profiles': [SAO, SAOLONG, NODE],
         'projection': ['bank.Balance', 'node.Pledge#0', 'node.Pledge#1', 'node.Pledge#4', 'node.Pledge#5', 'node.PledgeDebt', 'order.Shard#4', 'order.Shard#9'],
-        'monitors': ['agg.used_bounds', 'agg.shpledged_is_sum', 'agg.used_is_sum', 'frame.node_msgs'], 'families': ['sao', 'block', 'node'],
+        'monitors': ['agg.used_bounds', 'agg.shpledged_is_sum', 'agg.used_is_sum', 'frame.node_msgs', 'solv.node'], 'families': ['sao', 'block', 'node'],
     },
     'C08': {
         'theorems': 'Properties/C08', 'obligation_files': ['Obligations/ObShape'],
@@ -149,7 +149,7 @@ PROPS = {
         'profiles': [SAO, SAOLONG],
         'projection': ['order.OrderCount', 'order.ShardCount', 'order.Order+keys', 'order.Shard+keys', 'model.Metadata#3', 'model.Metadata#6',
                        'model.Metadata#9', 'model.Metadata#15', 'model.Metadata#16'],
-        'monitors': ['ids.'], 'families': ['sao', 'block'],
+        'monitors': ['ids.', 'ver.'], 'families': ['sao', 'block'],
     },
     'C17': {
         'theorems': 'Properties/C17', 'obligation_files': [],
